@@ -221,6 +221,11 @@ func (m *RWMutexModel) Unlock(t *Task) {
 //go:norace
 func (m *RWMutexModel) Busy() bool { return m.wheld || m.readers > 0 || m.pendingW > 0 }
 
+// Held reports whether some task is inside a critical section of the lock right now (waiters do not count).
+//
+//go:norace
+func (m *RWMutexModel) Held() bool { return m.wheld || m.readers > 0 }
+
 type WaitGroupModel struct {
 	n int
 }
